@@ -49,24 +49,32 @@ def counter_divisor(repo: Repo, rel, cls):
 
 
 def worlds_for(directed, R):
-    """Yield (cfg, symbols, constraints) for every combination of the finite flags."""
+    """Yield (cfg, symbols, constraints) for every combination of the finite flags.
+    A vanishing time e <= t describes an *empty* span t..e-1: on removal-enabled graphs these calls form their own
+    family (empty=True: nothing may change); accumulative graphs ignore e, so there e is unconstrained."""
     for removal in (True, False):
-        for has_e in (False, True):
+        for has_e, empty in ((False, False), (True, False)) + (((True, True),) if removal else ()):
             # new pair
             syms = ["s"] + (["E"] if has_e else [])
-            cons = [("s", 0, "<", "E", 0)] if has_e else []
-            yield dict(removal=removal, has_e=has_e, exists=False), syms, cons
+            cons = []
+            if has_e and removal:
+                cons = [("E", 0, "<=", "s", 0)] if empty else [("s", 0, "<", "E", 0)]
+            yield dict(removal=removal, has_e=has_e, exists=False, empty=empty), syms, cons
             for has_prefix in (False, True):
                 for closed in ((False, True) if removal else (False,)):
                     for L in (("uv",) if directed else ("uv", "vu")):
                         syms2 = syms + ["a", "b"]
                         cons2 = cons + [("a", 0, "<=", "b", 0)]
                         yield dict(removal=removal, has_e=has_e, exists=True, has_prefix=has_prefix,
-                                   closed=closed, L=L), syms2, cons2
+                                   closed=closed, L=L, empty=empty), syms2, cons2
 
 
 def case_of(cfg, ot: OrderType):
     """Semantic class of the call relative to the pair's last run (used in finding keys)."""
+    if cfg.get("empty"):
+        if cfg["exists"] and ot.cmp_terms(("s", 0), ("a", 0), "<"):
+            return "empty-span-before-latest-run"
+        return "empty-span-new-pair" if not cfg["exists"] else "empty-span"
     if not cfg["exists"]:
         return "new-pair"
     s, a, b = ("s", 0), ("a", 0), ("b", 0)
@@ -153,6 +161,27 @@ class MergeChecker:
                         continue
                 self.n_ordertypes += 1
                 self._run_world(cfg, ot)
+        # rejected calls against a timeline with an explicit earlier run [p, q]: the rejected start (or vanishing time) may
+        # coincide with an instant at which that run left an event - taking back the events of the rejected call must not
+        # take those with it
+        for has_e in (False, True):
+            for closed in (False, True):
+                for prev_closed in (False, True):
+                    for L in (("uv",) if self.directed else ("uv", "vu")):
+                        cfg = dict(removal=True, has_e=has_e, exists=True, has_prefix=False, closed=closed, L=L, prev_run=True,
+                                   prev_closed=prev_closed, cls=self.cls, directed=self.directed, tte_kind=self.kinds["time_to_edge"],
+                                   snap_kind=self.kinds["snapshots"])
+                        syms = ["s"] + (["E"] if has_e else []) + ["p", "q", "a", "b"]
+                        cons = ([("s", 0, "<", "E", 0)] if has_e else []) + [("p", 0, "<=", "q", 0), ("q", 2, "<=", "a", 0),
+                                                                              ("a", 0, "<=", "b", 0), ("s", 0, "<", "a", 0)]
+                        self.n_worlds += 1
+                        for ot in enumerate_order_types(syms + (["0"] if zero else []), cons, self.R):
+                            if not closed and ot.cmp_terms(("b", 0), ("a", 2), ">="):
+                                continue
+                            if not prev_closed and ot.cmp_terms(("q", 0), ("p", 2), ">="):
+                                continue
+                            self.n_ordertypes += 1
+                            self._run_world(cfg, ot)
         return self
 
     def _env(self, has_e, t_missing=False):
@@ -196,10 +225,11 @@ class MergeChecker:
                                      "a call without t must raise NetworkXError; the interpreted body %s" % (
                                          "returned" if kind == "ok" else "raised %s (%s)" % (r.exc, r.detail)), wit,
                                      getattr(r.node, "lineno", 0) if r else 0)
-                        if w.effects:
+                        net = w.net_changes()
+                        if net:
                             self.add("C07.atomic", "missing-t:write-before-raise",
-                                     "state is written before the NetworkXError for a missing t: %s" % (w.effects[0][0],),
-                                     wit, w.effects[0][1])
+                                     "state written before the NetworkXError for a missing t is still there when it is raised: %s" % (
+                                         net[0][0],), wit, net[0][1])
 
     # ------------------------------------------------------------------
     def _run_world(self, cfg, ot):
@@ -224,8 +254,9 @@ class MergeChecker:
     def _wit(self, cfg, ot, ch):
         flags = "removal=%s e=%s" % (cfg["removal"], "given" if cfg["has_e"] else "None")
         if cfg["exists"]:
-            flags += " last=[a,b]%s%s logged-as=%s" % (
+            flags += " last=[a,b]%s%s%s logged-as=%s" % (
                 " +earlier-intervals" if cfg.get("has_prefix") else "",
+                (" previous-run=[p,q]%s" % (" closed('-'@q+1)" if cfg.get("prev_closed") else " unclosed")) if cfg.get("prev_run") else "",
                 " closed('-'@b+1)" if cfg.get("closed") else " unclosed", cfg["L"])
         else:
             flags += " new pair"
@@ -239,6 +270,8 @@ class MergeChecker:
         mode = "removal" if cfg["removal"] else "accumulative"
         ek = "e" if cfg["has_e"] else "noe"
         should_reject = case == "before-latest-run"
+        empty = bool(cfg.get("empty"))
+        may_reject = case == "empty-span-before-latest-run"     # an empty span that starts too early: rejected or ignored
         if len(self.samples) < 6 and kind == "ok" and cfg["exists"] and not self.samples_has(case):
             self.samples.append(dict(case=case, world=wit, effects=[e for e, _ in w.effects][:12]))
         # ---- exceptions ------------------------------------------------
@@ -249,11 +282,12 @@ class MergeChecker:
                          "add_interaction(u, v) reaches for the stored data of the reverse pair (v, u): on a directed graph the two "
                          "are different interactions and must not affect each other", wit, line)
                 return
-            if should_reject and r.exc == "ValueError" and r.explicit:
-                if w.effects:
-                    self.add("C07.atomic", "reject:write-before-raise:%s" % w.effects[0][0][0],
-                             "the ValueError of a rejected call is raised after state was written (%s)" % (
-                                 w.effects[0][0],), wit, w.effects[0][1])
+            if (should_reject or may_reject) and r.exc == "ValueError" and r.explicit:
+                net = w.net_changes()
+                if net:
+                    self.add("C07.atomic", "reject:write-before-raise:%s" % net[0][0][0],
+                             "the ValueError of a rejected call leaves a trace: state written before the raise is not taken back (%s)" % (
+                                 net[0][0],), wit, net[0][1])
                 return
             if r.explicit:
                 self.add("C01.reject", "%s:%s:%s:spurious-%s" % (mode, case, ek, r.exc),
@@ -261,10 +295,10 @@ class MergeChecker:
             else:
                 self.add("C01.exception", "%s:%s:%s:%s" % (mode, case, ek, r.exc),
                          "add_interaction can fail with %s: %s" % (r.exc, r.detail), wit, line)
-            if w.effects:
+            net = w.net_changes()
+            if net:
                 self.add("C07.atomic", "exception:write-before-raise",
-                         "state was already written when %s is raised (%s)" % (r.exc, w.effects[0][0],), wit,
-                         w.effects[0][1])
+                         "state was already written when %s is raised (%s)" % (r.exc, net[0][0],), wit, net[0][1])
             return
         if should_reject:
             self.add("C01.reject", "%s:%s:not-rejected" % (mode, ek),
@@ -283,7 +317,8 @@ class MergeChecker:
                 self.add("C01.state", "%s:%s:%s:defaultdict-int" % (mode, case, ek),
                          "reading time_to_edge[%s] without a membership test stores the int 0 there "
                          "(stream_interactions then fails)" % eff[1], wit, line)
-        self._judge_links(cfg, case, w, wit, mode, ek)
+        if not empty:
+            self._judge_links(cfg, case, w, wit, mode, ek)
         tl = self._linked_timeline(w)
         if tl is not None:
             self._judge_timeline(cfg, ot, case, w, tl, wit, mode, ek)
@@ -355,7 +390,10 @@ class MergeChecker:
             items.append((it.items[0], it.items[1]))
         s = Int("s")
         f = Int("E", -1) if (cfg["has_e"] and cfg["removal"]) else Int("s")
-        if not cfg["exists"]:
+        if cfg.get("empty"):
+            # the span t..e-1 is empty: the presence of the pair is what it was
+            exp = ([(Int("z"), Int("z"))] if cfg.get("has_prefix") else []) + [(Int("a"), Int("b"))] if cfg["exists"] else []
+        elif not cfg["exists"]:
             exp = [(s, f)]
         else:
             pre = [(Int("z"), Int("z"))] if cfg.get("has_prefix") else []
@@ -402,7 +440,9 @@ class MergeChecker:
         else:
             if cfg.get("has_prefix"):
                 required.append(("+", Int("z")))
-            if not cfg["exists"]:
+            if cfg.get("empty"):
+                runs = [(Int("a"), Int("b"), "kept")] if cfg["exists"] else []
+            elif not cfg["exists"]:
                 runs = [(s, f, "new")]
             else:
                 a, b = Int("a"), Int("b")
